@@ -13,7 +13,7 @@ var props = map[string]propCfg{
 			"(random bytes, structured text, 1-3 token mutations of repository patches, template-grammar ill-typed patches) crossed with repository test inputs " +
 			"and generated targets in which the minus side occurs; run through patch.Parse+Apply behind recover and a 10 s watchdog, a sample also through the CLI. " +
 			"The template grammar also plants targets in which an optional part that the pattern fills with a metavariable is absent (plain break / continue / return, a[:], no receiver, no result, no initialiser, embedded field, switch without tag ...; 40 templates) and uses elisions in lists that must not be empty (x := ..., ... = f(), var x = ..., case ...:, go ..., x[...]). " +
-			"Non-trivial = the patch got past sectioning and metavariable parsing (reached pgo/engine, or crashed); distinct by sha256(patch, target).",
+			"Non-trivial = the patch got past sectioning and metavariable parsing (reached pgo/engine, or crashed); distinct by sha256(patch, target). Mode 'many-elisions': valid patches with a dozen or more elisions, among them in parameter lists of nested func literals and a leading '...'.",
 		Assumptions: []string{
 			"a hang is 'no return within 10 s' for inputs of at most a few KB (normal run time is below 5 ms)",
 			"native go test -fuzz campaigns cannot be seed-pinned; they are run separately (thorough) and their crashers are replayed here",
@@ -24,7 +24,7 @@ var props = map[string]propCfg{
 		Quick:    tierCfg{Shards: 8, Checks: 2000, Timeout: 4 * time.Minute},
 		Thorough: tierCfg{Shards: 16, Checks: 20000, Timeout: 40 * time.Minute},
 		Rule: "a pattern (expression, statement run, func/type/value declaration) is mined from a drawn place of a real Go file (standard-library sample, repository test inputs, hand-written exotic file) by replacing drawn sub-expressions/identifiers with metavariables and drawn list runs with elisions; the plus side is a drawn edit carrying a marker; 0-3 fresh instances and 1-5 single-field mutants of instances (operator, literal, name, arity, variadic '...', alias '=', channel direction, optional child, metavariable kind/consistency) are planted at drawn statement/declaration positions in drawn syntactic contexts. Oracle: reference matcher/rewriter over canonical syntax trees. " +
-			"Non-trivial = the reference finds >= 1 site and confirms >= 1 planted mutant as a non-instance; distinct by sha256(patch, file). Output comparison counts parentheses one way: more than expected is tolerated, an expected parenthesis that is absent is a difference. An Apply error is a discrepancy when the reference finds admissible sites and its result is valid Go.",
+			"Non-trivial = the reference finds >= 1 site and confirms >= 1 planted mutant as a non-instance; distinct by sha256(patch, file). Output comparison counts parentheses one way: more than expected is tolerated, an expected parenthesis that is absent is a difference. An Apply error is a discrepancy when the reference finds admissible sites and its result is valid Go. One case in 12 is a synthetic nested-choice case ('-hq(fq(..., x, ...), x)': the reference searches completely, sites that only a complete search finds are a listed finding). Outside reference sites parentheses must be exactly the expected ones.",
 		Assumptions: modelAssumptions,
 		MinNontriv:  50,
 	},
@@ -32,7 +32,7 @@ var props = map[string]propCfg{
 		Quick:    tierCfg{Shards: 8, Checks: 2000, Timeout: 4 * time.Minute},
 		Thorough: tierCfg{Shards: 16, Checks: 20000, Timeout: 40 * time.Minute},
 		Rule: "as C01 with generalisation biased to repeated metavariables (same hole for tree-equal subterms, and a forced second occurrence that makes the original code a near-miss) and identifier holes; mutants include 'one occurrence differs / is parenthesised' and 'identifier hole filled with a.b, (a), f(), 5, *p'. " +
-			"Non-trivial = a repeated or identifier metavariable, >= 1 site and >= 1 confirmed near-miss in the same file.",
+			"Non-trivial = a repeated or identifier metavariable, >= 1 site and >= 1 confirmed near-miss in the same file. One case in 12 is a synthetic nested-choice case (see C01).",
 		Assumptions: modelAssumptions,
 		MinNontriv:  50,
 	},
@@ -41,7 +41,7 @@ var props = map[string]propCfg{
 		Thorough: tierCfg{Shards: 16, Checks: 20000, Timeout: 40 * time.Minute},
 		Rule: "as C01 without elisions, 2-5 planted instances with independently drawn fillers (identifiers, calls, binary/unary expressions, composite and func literals, type expressions), plus sides that rename, wrap, swap, drop, duplicate holes and add statements/arguments. " +
 			"Fillers draw one identifier in six from the pattern's own metavariable names and include generic instantiations, slice expressions, keyed composite literals of composite types, method calls, conversions and func literals with results; one plus side in about ten is a bare metavariable of the minus side ('-traced(x)' / '+x', no marker), with call instances also planted as the operand of defer / go and as a statement (slots whose static type is *ast.CallExpr). Copies of a metavariable must be the code as it was matched: instances nested inside the captured code are not rewritten in the copies. " +
-			"Non-trivial = >= 2 reference sites with pairwise different bindings. Output comparison counts parentheses one way (a '(x)' of the '+' pattern has to come out parenthesised).",
+			"Non-trivial = >= 2 reference sites with pairwise different bindings. Output comparison counts parentheses one way (a '(x)' of the '+' pattern has to come out parenthesised). One case in 25 each: a metavariable standing for a type placed below a type constructor ('make(chan x)' with x = '<-chan int'), and a bare name replaced by a non-name in every position a name can occur.",
 		Assumptions: modelAssumptions,
 		MinNontriv:  50,
 	},
@@ -49,7 +49,7 @@ var props = map[string]propCfg{
 		Quick:    tierCfg{Shards: 8, Checks: 1500, Timeout: 4 * time.Minute},
 		Thorough: tierCfg{Shards: 16, Checks: 12000, Timeout: 40 * time.Minute},
 		Rule: "as C01 on hosts of up to 400 lines (real standard-library files with generics, labels, struct tags, raw strings, build constraints, closures); the whole output file is compared with the reference rewrite as canonical trees, imports as a multiset. " +
-			"Non-trivial = >= 1 reference site (so the file is re-printed) ; distinct by sha256(patch, file).",
+			"Non-trivial = >= 1 reference site (so the file is re-printed) ; distinct by sha256(patch, file). Parentheses outside the rewritten fragments must be exactly those of the input.",
 		Assumptions: modelAssumptions,
 		MinNontriv:  50,
 	},
@@ -62,7 +62,7 @@ var props = map[string]propCfg{
 			"explicit files inside excluded directories, explicit excluded directories, explicit non-.go files and symlinks, repeats in the same or another spelling) and a working directory that is the root or a subdirectory. " +
 			"Every file holds one cnt(0) and the patch is -cnt(x)/+cnt(x + 1), so the number of applications is read off the bytes; the oracle is a reference walk over the tree model (must / either / must-not per file), " +
 			"all other entries must be identical in type, mode, size, mtime, inode and sha256, and with -v the patched/skipped lines must be exactly the reference set in ascending absolute-path order. " +
-			"Non-trivial = the tree has at least one .go file below an excluded directory and two arguments overlap or repeat; distinct by sha256(tree, cwd, args, -v). Arguments may pass through a symbolic link to a directory of the tree (a file named that way is processed, once, however else it is named; a directory named that way is left open).",
+			"Non-trivial = the tree has at least one .go file below an excluded directory and two arguments overlap or repeat; distinct by sha256(tree, cwd, args, -v). Arguments may pass through a symbolic link to a directory of the tree (a file named that way is processed, once, however else it is named; a directory named that way is left open). Trees may hold hard links of Go files (same base name, other directory) and names with '[', '?', '*'.",
 		Assumptions: []string{
 			"'a fixed path order' is taken to be ascending byte order of the absolute paths, as the anchors say (sorting in findFiles)",
 			"a named directory whose own path (below the tree root) has an excluded component (explicit sub/vendor, sub/vendor/pkg, '.' inside vendor) is left open by the statement: the files below it that are not behind a further excluded directory may be processed once or not at all",
@@ -79,7 +79,7 @@ var props = map[string]propCfg{
 			"Part 2 draws random compositions (0-5 header blocks, several markers, drawn <text>, one-character edits of a well-formed marker, @generated in context). " +
 			"Oracle: three-valued reference predicate computed from the file bytes by a hand-written lexer (README wording + property statement): must-skip -> gen.go bytes/mtime/inode identical, nothing about it on stdout/stderr, exit 0, siblings exactly as in a run without the flag where gen.go is absent; must-process -> exit/stdout/stderr/files identical to the run without the flag; either -> one of the two, nothing in between; flag off -> identical (modulo the letters of the marker line) to the same file with the marker replaced by an innocuous comment. " +
 			"Header shapes include licence blocks of 7 KB and 70 KB before the marker or between marker and package clause, and a long block comment after the clause (nothing may depend on a fixed-size read-ahead). " +
-			"Non-trivial = the file carries at least one marker or near-miss (anything but an ordinary remark); distinct by sha256(file, configuration). Shape added: marker below the package clause and, further down, a raw string with a line that reads like a package clause.",
+			"Non-trivial = the file carries at least one marker or near-miss (anything but an ordinary remark); distinct by sha256(file, configuration). Shape added: marker below the package clause and, further down, a raw string with a line that reads like a package clause. Markers on directive-shaped lines ('//lint:file-ignore U1000 @generated by x').",
 		Assumptions: []string{
 			"'package doc comment' = the comment group ending on the line directly above the package keyword; '@generated' counts as must-skip only as a word of its own",
 			"well-formed text in a /* */ comment, indented or after other text on its line, and @generated outside the package doc are not judged (either outcome is accepted, but nothing in between)",
@@ -94,7 +94,7 @@ var props = map[string]propCfg{
 			"with exactly one header or metavariable-section fault injected at a drawn change/line/column; patch.Parse must fail with a diagnostic 'name:line:col:' for the byte position of the " +
 			"offending token known to the generator (a sample also through the CLI: exit != 0, stderr has path:line:col, directory tree unchanged); plus rejected patches of other kinds " +
 			"(body syntax errors, truncations, token mutations of repository patches) through the CLI, judged only for 'stderr names the patch path, nothing rewritten'. " +
-			"Non-trivial = a judged header/metavariable fault on line > 1 with at least one comment/blank line or a whole change before it; distinct by sha256(name, patch, position, route). Go comments (also '/*line f.go:1:1*/') between the tokens of a metavariable declaration; patch file names with '%', ':' and blanks.",
+			"Non-trivial = a judged header/metavariable fault on line > 1 with at least one comment/blank line or a whole change before it; distinct by sha256(name, patch, position, route). Go comments (also '/*line f.go:1:1*/') between the tokens of a metavariable declaration; patch file names with '%', ':' and blanks. Comment lines ending in a carriage return.",
 		Assumptions: []string{
 			"the fault-free twin of every generated patch is parsed first; a case whose twin is rejected is not judged (status:base-rejected in the class histogram, expected 0)",
 			"faults whose offending token is the end of the metavariable section (e.g. 'var x,' directly before '@@') are not generated: there is no token in the file to point at",
@@ -108,7 +108,7 @@ var props = map[string]propCfg{
 		Thorough: tierCfg{Shards: 16, Checks: 12000, Timeout: 40 * time.Minute, Env: []string{"VERIF_C04_MAXPAT=5", "VERIF_C04_MAXPAT_ARGS=6"}},
 		Rule: "part (a), exhaustive: every pattern over {atom a, atom b, metavariable x, metavariable y, elision} up to a length bound with at most 3 elisions, against all lists of length 0..5 (thorough; 364 lists) or 0..4 (quick; 121 lists) over {a,b,c} planted as sites of one file, per list kind (call arguments, composite elements, return results, unnamed and named parameters, results, struct fields, interface methods, block statements inside 'if tgt {', block statements with the implicit leading/trailing elision); oracle = a 30-line backtracking list model (shortest run first, left to right, consistent metavariables) giving match/no-match and the exact output list; quick = call arguments (length <= 5), struct fields and both statement forms (length <= 4), thorough = all kinds with length <= 5 (call arguments <= 6). " +
 			"part (b), generated: mined patterns with 1-3 elisions (lists up to 12 elements, for-headers) in real hosts against the reference matcher. " +
-			"Non-trivial = (a) a (pattern, kind) pair with an elision for which at least one list has a non-empty elided run or is a non-match of length >= 2; (b) a pattern with an elision, >= 1 site and >= 1 elided element. Distinct by (kind, pattern) resp. sha256(patch, file). Part 'pair': '-tgt(P)' '+tgq(P)' with 1-3 elisions in P on the changed line pair (the k-th elision of one side stands for the k-th of the other).",
+			"Non-trivial = (a) a (pattern, kind) pair with an elision for which at least one list has a non-empty elided run or is a non-match of length >= 2; (b) a pattern with an elision, >= 1 site and >= 1 elided element. Distinct by (kind, pattern) resp. sha256(patch, file). Part 'pair': '-tgt(P)' '+tgq(P)' with 1-3 elisions in P on the changed line pair (the k-th elision of one side stands for the k-th of the other). Parts 'orphan' (an elision on the '+' side only must not be carried out silently) and 'grouped' (field lists with grouped names).",
 		Assumptions: append([]string{
 			"part (a): elisions stand on context lines of the patch (one element per line), the form the documentation recommends; a pattern of the fixed family that gopatch rejects counts as a violation because every member is accepted on the unchanged tree",
 			"statement patterns with an explicit elision directly next to the implicit leading/trailing one are skipped (the split of elements between the two is not determined by the property)",
@@ -120,7 +120,7 @@ var props = map[string]propCfg{
 		Thorough: tierCfg{Shards: 16, Checks: 40000, Timeout: 20 * time.Minute},
 		Rule: "complete table: patch-side import form {absent, unnamed, literally named, metavariable-named, dot, blank} x file-side imports of the guarded path {none, unnamed, same name, other name, dot, blank, spelled like the metavariable, and 8 two-spec combinations in both orders} x file layout {single imports, one group, group among unrelated imports incl. paths that are a prefix/suffix of the guarded path, two blocks, ...: 8 layouts} x package clause {absent, same, different} x guard line kind {context, '-'} x second guarded import {none, satisfied, missing, present in another form} = 17k cells, in every one of which the code pattern does occur in the file; then generated cells with 0-5 extra unrelated imports in drawn forms. Oracle: the table in the property statement decides applies / no effect; 'no effect' is checked as byte-identical Apply result. " +
 			"Package clause cases: absent, same, different, and the near-misses file foo_test / guard foo, guard foo_test / file foo, both foo_test, guard a prefix of the name, guard longer than the name, other capitalisation. Body shapes: expression -> expression (full cross product), and expression -> several statements, statements -> statement, whole function declaration (crossed with two layouts and two second-guard cases). " +
-			"Non-trivial = every cell (each carries at least one guard); distinct by the cell's coordinates. Variants: a metavariable declared with the name of the guarding package clause; an earlier, never-applying change of the same patch file with the same import clause under the other reading of its name (metavariable vs. literal).",
+			"Non-trivial = every cell (each carries at least one guard); distinct by the cell's coordinates. Variants: a metavariable declared with the name of the guarding package clause; an earlier, never-applying change of the same patch file with the same import clause under the other reading of its name (metavariable vs. literal). Body 'uses-mv' (the code refers to the package through the metavariable that names the import; the file uses the name of the last of its imports of the path).",
 		Assumptions: []string{
 			"a file that imports the guarded path twice satisfies a guard if any of the two specs has the stated form",
 			"the random part shares the oracle of the table; the table part alone is a complete enumeration of the stated cross product",
@@ -133,7 +133,7 @@ var props = map[string]propCfg{
 		Rule: "part (a): generated files with 0-8 bystander imports (unnamed, named, blank, dot; one group, single declarations, two blocks, with doc and trailing comments; paths that extend or are extended by the subject path) around a subject import, and patches that replace it, change its path keeping its name, delete it, add another import or merely match it, naming it literally, not at all or by an identifier metavariable, optionally with a second deleted or added import; the file still refers to the subject package not at all, plainly, or only through pkg.A.B / pkg.F().B / pkg.T[0].B / a nested func literal / type positions. Oracle on the (name, path) multiset: bystanders unchanged, nothing unmentioned added, '+' imports present once (under the captured name), '-' imports gone iff nothing refers to their package name any more (or a '+' import supplies the same name). " +
 			"Subject paths are plain, gopkg.in/yaml.v2 -> v3 or example.com/codec/v2 -> v3 (the package name is not the last path element); remaining uses include a parameter, a local variable and a receiver named like the package (not references to the package). " +
 			"part (b): mined patterns with '+import' lines on real hosts (host imports must survive as a multiset, the added import appears once). " +
-			"Non-trivial = (a) the change applies, >= 2 bystanders of >= 2 different forms, and the patch adds or deletes an import; (b) >= 1 site and a '+import' line.",
+			"Non-trivial = (a) the change applies, >= 2 bystanders of >= 2 different forms, and the patch adds or deletes an import; (b) >= 1 site and a '+import' line. Kind 'rename-name-keep-path'; part (c) shape 'import added by an earlier change'.",
 		Assumptions: append([]string{
 			"the package name of an unnamed import is the last element of its path, and a metavariable import name is spelled like the package (the documented best practice); bystanders never share a package name with a subject import and no local identifier shadows a package name",
 			"an import matched on a context line that is no longer referred to is not judged (the property is silent)",
@@ -144,7 +144,7 @@ var props = map[string]propCfg{
 		Quick:    tierCfg{Shards: 8, Checks: 1500, Timeout: 3 * time.Minute},
 		Thorough: tierCfg{Shards: 16, Checks: 20000, Timeout: 30 * time.Minute},
 		Rule: "a base patch of one or two changes (mined pattern on a real host, see C01; optionally followed by a change that matches code the first one introduces) is rendered plainly and re-rendered under a drawn composition of layout transformations: '#' lines (above the patch, detached from the header, inside the metavariable section, inside the diff, trailing), blank lines (before the first header, inside the diff, trailing), naming the change, new description lines, consistent renaming of all metavariables to fresh identifiers, regrouping / reordering / ';'-joining the declarations, extra indentation, wrapping after every comma on all lines, joining context lines that end in ',' or '(' with the next context line, writing elision-free context lines as identical -/+ pairs and identical -/+ pairs as context lines. Oracle (metamorphic): base and variant are both rejected, or both results are equal as canonical syntax trees; a sample through the CLI checks that stderr carries exactly the '#' lines directly above a change's header. " +
-			"Non-trivial = the base patch changes the file and the variant differs from it in >= 2 transformation classes; distinct by sha256(base, variant, file). One case in six is a hand-written change with several elisions on a changed line (call arguments, result lists, composite literals); layout transformation 'common tail as context' ('-foo(REST' '+bar(REST' written as '-foo(' '+bar(' ' REST').",
+			"Non-trivial = the base patch changes the file and the variant differs from it in >= 2 transformation classes; distinct by sha256(base, variant, file). One case in six is a hand-written change with several elisions on a changed line (call arguments, result lists, composite literals); layout transformation 'common tail as context' ('-foo(REST' '+bar(REST' written as '-foo(' '+bar(' ' REST'). Layout transformation 'indent-description' (seen through the CLI sample).",
 		Assumptions: append([]string{
 			"metavariables that name an import are not renamed (documented exception); generated base patches do not contain any",
 			"wrapping is done only after commas (never where a semicolon would be inserted) and identically on every line of both sides",
@@ -155,7 +155,7 @@ var props = map[string]propCfg{
 		Quick:    tierCfg{Shards: 8, Checks: 350, Timeout: 4 * time.Minute},
 		Thorough: tierCfg{Shards: 16, Checks: 2500, Timeout: 40 * time.Minute},
 		Rule: "sequences of 2-5 changes: (a) a mined change on a real host followed by changes that match only the marker code it introduces (bare identifier, empty call, one/two-argument call, call with elision, selector forms), independent changes mined from the same host, and steps that fail at rewrite time (plus side uses an unbound metavariable); (b) synthetic call-rewriting chains fK(...) -> fK+1(...) over a small file (argument permutation, dropping, duplication, wrapping of arguments, elisions that match zero arguments, changes on names that never occur, a later change on a wrapper introduced earlier). The sequence is cut into 1..n patch files and given as one file, several -p, a -P list, -p plus -P, or stdin. (c) guard sequences: 2-5 changes drawn from a pool that renames the package, replaces / adds / deletes / renames imports, or is guarded by a package clause or an import that an earlier change may have introduced or taken away; (d) focused histories on the same calls fK(<nested argument>, <tail>): steps that bind a metavariable to the nested argument and then fail to match, rewrite something strictly inside it, or reproduce it under a new callee (one patch file in a third of the cases, so that whatever a compiled program remembers is shared). Oracle (differential): the combined CLI run vs the chain of single-change runs, each on the bytes the previous one wrote, compared as canonical trees with parentheses looked through; if a single step fails, the combined run must exit non-zero and leave the file byte-identical. " +
-			"Non-trivial = at least two changes applied and one of them does not apply to the original file on its own, or a failing step after at least one applied change; distinct by sha256(changes, file, channel, split). Families added: 'synthetic-emptied' (an elision that stands for nothing empties a result / argument / field list, a later change is about the form without it; optionally a literal not in gofmt's form), 'synthetic-unprintable' (a step whose result cannot be printed, repaired by a later step), 'synthetic-shadowed-package' (a later change names an imported package, the file has a local of that name inside code an earlier change rebuilds).",
+			"Non-trivial = at least two changes applied and one of them does not apply to the original file on its own, or a failing step after at least one applied change; distinct by sha256(changes, file, channel, split). Families added: 'synthetic-emptied' (an elision that stands for nothing empties a result / argument / field list, a later change is about the form without it; optionally a literal not in gofmt's form), 'synthetic-unprintable' (a step whose result cannot be printed, repaired by a later step), 'synthetic-shadowed-package' (a later change names an imported package, the file has a local of that name inside code an earlier change rebuilds). Family 'synthetic-generated-declarations' (an earlier change writes declarations, a later one binds an identifier metavariable at one of them and at an old use).",
 		Assumptions: []string{
 			"-p files are given before the -P list (gopatch loads all -p patches first; the only unambiguous 'given order')",
 			"a failing step is one whose own single-change run exits non-zero; steps after it are not run in the chain",
@@ -179,7 +179,7 @@ var props = map[string]propCfg{
 		Thorough: tierCfg{Shards: 16, Checks: 15000, Timeout: 40 * time.Minute},
 		Rule: "real hosts (their own comments of every kind: licence headers, //go:build lines, package docs, declaration docs, end-of-line and free-standing comments) additionally decorated by a comment injector (unique tokens c17_<n>: end-of-line comments after statements, free-standing comment lines, doc comments and //go:generate directives above top-level declarations, /* */ comments after ',' and '(' inside expressions, a file header), gofmt-stable, with a mined change that rewrites 1..n places. Oracle: (1) the multiset of comment texts of the output is included in that of the input; (2) for every top-level declaration in which the reference rewrites nothing, the list of its doc, inner and trailing comments is unchanged, in order; (3) header and package comments unchanged; (4) free-standing comments between two untouched declarations unchanged. Judged only when the code of the output equals the reference rewrite. " +
 			"Declarations of input and output correspond in order by exact code equality, so changes that remove a declaration, add one or turn one into another kind (func -> const, var -> func, ...; 9 such changes in the pool) are judged too. " +
-			"Non-trivial = a rewritten declaration whose two neighbours are untouched and commented; distinct by sha256(patch, file). Families added: 'import-section' (tokens on the package line, on import specs and declarations, cgo preamble, free-standing comments, build constraints; a patch that deletes / replaces / adds an import or none; each token must stay, once, attached to what it was attached to) and declaration runs of up to 170 rewritten declarations on either side of an untouched commented function.",
+			"Non-trivial = a rewritten declaration whose two neighbours are untouched and commented; distinct by sha256(patch, file). Families added: 'import-section' (tokens on the package line, on import specs and declarations, cgo preamble, free-standing comments, build constraints; a patch that deletes / replaces / adds an import or none; each token must stay, once, attached to what it was attached to) and declaration runs of up to 170 rewritten declarations on either side of an untouched commented function. A quarter of the import-section cases run through the command line with --skip-import-processing; files without imports; a comment on the line below the package clause.",
 		Assumptions: append([]string{
 			"comments are compared by whitespace-normalised text; empty comments ('//') are ignored; inputs are gofmt-stable so that gofmt's own doc-comment reformatting cannot change them",
 			"declarations correspond by index among non-import declarations (cases where a declaration pattern changes the number of declarations are judged by rule (1) only)",
@@ -245,7 +245,7 @@ var props = map[string]propCfg{
 			"cli (about 35% of the cases): every file alone in a tree that holds nothing else vs all together (1-2 patch files; drawn order and spelling of file, directory and '...' arguments with duplicates and overlaps, relative or absolute; in place, -d or --print-only; -v, --skip-generated, --skip-import-processing), the grouped run done twice on an identically re-created tree and optionally in a second arrangement: per-file bytes, per-file stdout, description lines and error texts, exit status must be those of the solo runs; identical bytes give identical results. " +
 			"seq (about 25%): one patch.File, 2-8 Apply calls over 2-6 inputs with repeats, each compared with a fresh Parse + single Apply (bytes, error text). " +
 			"conc (about 40%): the same followed by 2-16 goroutines x 1-3 Apply calls on that patch.File released together, then the sequence again, in a child process of the -race test binary; a race report, a dead or stuck child, or any differing result is a violation. " +
-			"Non-trivial = cli: the grouped run covers >= 2 files of which >= 1 is changed by the patches and >= 1 is not (unchanged, unparseable, failing rewrite, skipped), and the argument list is not the sorted list of those files; seq: >= 3 calls, >= 2 distinct inputs, an input repeated, >= 1 call that rewrites; conc: >= 2 goroutines, >= 2 distinct inputs in the batch, >= 1 rewritten. Distinct by sha256(case). CLI trees may hold names too long to be written back (outcome write-error, the same alone and together) and hard links (two names of one file).",
+			"Non-trivial = cli: the grouped run covers >= 2 files of which >= 1 is changed by the patches and >= 1 is not (unchanged, unparseable, failing rewrite, skipped), and the argument list is not the sorted list of those files; seq: >= 3 calls, >= 2 distinct inputs, an input repeated, >= 1 call that rewrites; conc: >= 2 goroutines, >= 2 distinct inputs in the batch, >= 1 rewritten. Distinct by sha256(case). CLI trees may hold names too long to be written back (outcome write-error, the same alone and together) and hard links (two names of one file). Module scenario: sub/go.mod as an extra file, a file of that module and one outside it importing the module next to other third-party packages.",
 		Assumptions: []string{
 			"the harness does not control the Go scheduler: interleavings of concurrent Apply calls are sampled by stress (goroutines released together on 16 cores), not enumerated; a race that needs a rare schedule can be missed, a reported race is real (the race detector has no false positives)",
 			"'processed alone' = the CLI run on a tree that contains only that file at the same relative path, with the same flags and patch files",
